@@ -5,7 +5,12 @@
     * every name is a GraphQL name (`Names.GName`),
     * every operation has a root type and a valid selection set, every fragment is valid (`Spec/Validate.lean`;
       an operation NAME is not required: the anonymous operation is valid GraphQL and a documented refusal),
-    * variables are declared with input types, input fields are declared with input types.
+    * variables are declared with input types, input fields are declared with input types,
+    * the configuration is a supported one as far as names go (`cfgOK`: module names without leading dots, custom scalars
+      whose names are bound by the imports emitted for them, relative imports naming files that are copied into the
+      package), every `@mixin(from:, import:)` imports from such a module (`mixinsOK`),
+    * `schema` and `defs` are two views of one type map (`defsMatch`), fragment spreads are acyclic (`fragsAcyclic`,
+      NoFragmentCycles: checked on a candidate order, so that a rank function exists whenever the check passes).
   Core Lean only.
 -/
 import AriadneModel.Model.Package
@@ -50,12 +55,159 @@ def inputFieldsTyped (cfg : Config) (inp : Input) : Bool :=
     | .input _ fs => fs.all fun f => inputKindOK (InputField.kindOf (inputCfg cfg) inp.defs f.type.base)
     | _ => true
 
+/-! ### the configuration names importable things; the two vocabularies describe one type map; spreads are acyclic -/
+
+/-- does the string start with a dot (`from .x import …` written with the dots inside the module string)? -/
+def leadingDot (s : String) : Bool := s.toList.head? == some '.'
+
+/-- the files `_copy_files` puts into the package -/
+def copiedFiles (cfg : Config) : List String := filesToCopy cfg ++ [cfg.baseClientFile, baseModelFile]
+
+/-- an import the USER names (a custom scalar's `import` / dotted names, a `@mixin(from:, import:)`): absolute, or relative
+    to the package with one dot and naming a file that is copied into the package (and, for the files whose contents the
+    generator knows, a name that file defines) -/
+def userImportOK (cfg : Config) (i : Import) : Bool :=
+  let n := normImport i
+  n.level == 0 ||
+    (n.level == 1 && (copiedFiles cfg).contains (pyFile n.module) &&
+      match (copiedModule cfg (pyFile n.module)).provides with
+      | none => true
+      | some ns => n.names.all ns.contains)
+
+/-- names every emitted module that can carry a custom scalar annotation binds anyway -/
+def alwaysBound : List String := ["str", "int", "float", "bool", "bytes", "dict", "list", "object", "tuple", "set", "Any"]
+
+/-- a configured custom scalar: the names its annotations mention (`type`, `parse`, `serialize` after the last dot) are
+    builtins or bound by the imports `generate_scalar_imports` emits for it, and those imports are importable -/
+def scalarOK (cfg : Config) (d : Scalars.ScalarData) : Bool :=
+  let bound := alwaysBound ++ Scalars.boundNames (Scalars.scalarImports d)
+  bound.contains d.typeName
+  && (match d.parseName with | some p => bound.contains p | none => true)
+  && (match d.serializeName with | some p => bound.contains p | none => true)
+  && (Scalars.scalarImports d).all fun i => i.module != "" && userImportOK cfg (ofScalarImport i)
+
+/-- a supported configuration, as far as names are concerned: module names are not empty and not written with leading dots, the base
+    client file is a `.py` file not called like one of the bundled files, every configured custom scalar is importable -/
+def cfgOK (cfg : Config) : Bool :=
+  cfg.enumsModule != "" && cfg.inputsModule != "" && stem cfg.baseClientFile != ""
+  && !leadingDot cfg.enumsModule && !leadingDot cfg.inputsModule && !leadingDot cfg.fragmentsModule && !leadingDot cfg.clientFile
+  && !leadingDot (stem cfg.baseClientFile) && pyFile (stem cfg.baseClientFile) == cfg.baseClientFile
+  && cfg.baseClientFile != baseModelFile && cfg.baseClientFile != exceptionsFile && cfg.baseClientFile != baseOperationFile
+  && cfg.scalars.all fun nd => scalarOK cfg nd.2
+
+/-- `_parse_mixin_arguments`: later duplicates of an argument name win -/
+def mixinArg (d : Directive) (k : String) : Option String := (d.args.reverse.find? (·.1 == k)).bind (·.2)
+
+/-- the `(from, import)` pair of a well-formed `@mixin` directive -/
+def mixinPairOf (d : Directive) : Option (String × String) :=
+  if d.name == Tables.mixinName then
+    match mixinArg d Tables.mixinFromName, mixinArg d Tables.mixinImportName with
+    | some fr, some im => some (fr, im)
+    | _, _ => none
+  else none
+
+def dirsOK (cfg : Config) (dirs : List Directive) : Bool :=
+  dirs.all fun d => match mixinPairOf d with
+    | some (fr, im) => userImportOK cfg ⟨0, fr, [im]⟩
+    | none => true
+
+mutual
+  /-- every `@mixin` on a field anywhere inside the selection names an importable module -/
+  def selDirsOK (cfg : Config) : Selection → Bool
+    | .field _ _ dirs _ sub => dirsOK cfg dirs && selsDirsOK cfg sub
+    | .spread _ _ => true
+    | .inline _ _ _ sub => selsDirsOK cfg sub
+  def selsDirsOK (cfg : Config) : List Selection → Bool
+    | [] => true
+    | s :: rest => selDirsOK cfg s && selsDirsOK cfg rest
+end
+
+/-- every `@mixin(from:, import:)` of the document imports from an importable module -/
+def mixinsOK (cfg : Config) (inp : Input) : Bool :=
+  inp.ops.all (fun o => dirsOK cfg o.op.dirs && selsDirsOK cfg o.op.sel)
+  && inp.frags.all fun f => dirsOK cfg f.dirs && selsDirsOK cfg f.sel
+
+/-- `schema` and `defs` describe the same `type_map` (the harness derives both from one graphql-core schema) -/
+def defsMatch (inp : Input) : Bool :=
+  inp.schema.types.all (fun t =>
+    match t.kind, InputGen.findDef inp.defs t.name with
+    | .input, some (.input _ _) => true
+    | .enum, some (.enum _ _) => true
+    | .scalar, some (.scalar _) => true
+    | .object, some (.composite _) => true
+    | .interface, some (.composite _) => true
+    | .union, some (.composite _) => true
+    | _, _ => false)
+  && inp.defs.all fun d =>
+    match d with
+    | .input n _ => inp.schema.kindOf? n == some .input
+    | .enum n _ => inp.schema.kindOf? n == some .enum
+    | _ => true
+
+mutual
+  /-- names of the fragment spreads written inside a selection (through fields and inline fragments) -/
+  def selSpreadNames : Selection → List String
+    | .field _ _ _ _ sub => selsSpreadNames sub
+    | .spread n _ => [n]
+    | .inline _ _ _ sub => selsSpreadNames sub
+  def selsSpreadNames : List Selection → List String
+    | [] => []
+    | s :: rest => selSpreadNames s ++ selsSpreadNames rest
+end
+
+/-- one round of peeling: the fragments all of whose spreads are already ordered come next -/
+def peelRound (frags : List Fragment) (done : List String) : List String :=
+  done ++ ((frags.filter fun f => !done.contains f.name && (selsSpreadNames f.sel).all done.contains).map (·.name))
+
+def peel (frags : List Fragment) : Nat → List String → List String
+  | 0, done => done
+  | k + 1, done => peel frags k (peelRound frags done)
+
+/-- a candidate topological order of the fragment definitions (dependencies first) -/
+def fragOrder (frags : List Fragment) : List String := peel frags frags.length []
+
+/-- NoFragmentCycles, as a check of the candidate order: every fragment spread inside a fragment definition names a
+    fragment that comes strictly earlier -/
+def fragsAcyclic (inp : Input) : Bool :=
+  let ord := fragOrder inp.frags
+  inp.frags.all fun f => (selsSpreadNames f.sel).all fun m => decide (ord.idxOf m < ord.idxOf f.name)
+
+/-! ### a decidable region in which the quoted forward references of the result modules are PROVED to resolve -/
+
+mutual
+  /-- names of the fields selected WITHOUT a sub-selection, anywhere inside the selection -/
+  def selLeafNames : Selection → List String
+    | .field _ name _ _ sub => (if sub.isEmpty then [name] else []) ++ selsLeafNames sub
+    | .spread _ _ => []
+    | .inline _ _ _ sub => selsLeafNames sub
+  def selsLeafNames : List Selection → List String
+    | [] => []
+    | s :: rest => selLeafNames s ++ selsLeafNames rest
+end
+
+/-- the names of the fields of composite (object / interface / union) type, over all types of the schema -/
+def compositeFieldNames (S : Schema) : List String :=
+  S.types.flatMap fun t => (t.fields.filter fun fd => Validate.isComposite S fd.type.base).map (·.name)
+
+/-- no field name that the document selects as a LEAF (without sub-selection) is the name of a composite-typed field of
+    some type of the schema (and `String`, the type of `__typename`, is no composite type; no type declares a composite
+    `__typename` field of its own).  In a valid document a leaf
+    is a scalar- or enum-typed field of ITS parent type; this region asks the same of every type with a field of that
+    name, which makes the question independent of the type a selection set is evaluated for. -/
+def leafNamesOK (inp : Input) : Bool :=
+  !Validate.isComposite inp.schema "String" && !(compositeFieldNames inp.schema).contains Tables.typenameFieldName &&
+  (inp.ops.flatMap (fun o => selsLeafNames o.op.sel) ++ inp.frags.flatMap (fun f => selsLeafNames f.sel)).all fun n =>
+    !(compositeFieldNames inp.schema).contains n
+
 def validB (cfg : Config) (inp : Input) : Bool :=
   namesOK inp && docValid inp && varsTyped inp && inputFieldsTyped cfg inp
+  && cfgOK cfg && mixinsOK cfg inp && defsMatch inp && fragsAcyclic inp
 
 /-- which conjuncts fail (what the driver reports) -/
 def invalidParts (cfg : Config) (inp : Input) : List String :=
   (if namesOK inp then [] else ["namesOK"]) ++ (if docValid inp then [] else ["docValid"])
   ++ (if varsTyped inp then [] else ["varsTyped"]) ++ (if inputFieldsTyped cfg inp then [] else ["inputFieldsTyped"])
+  ++ (if cfgOK cfg then [] else ["cfgOK"]) ++ (if mixinsOK cfg inp then [] else ["mixinsOK"])
+  ++ (if defsMatch inp then [] else ["defsMatch"]) ++ (if fragsAcyclic inp then [] else ["fragsAcyclic"])
 
 end Ariadne.PackageValid
